@@ -287,4 +287,40 @@ CHECKS = {
         note=_NOTE + " GT-input class claims are verified only on flagged events; the G1 and GT endomorphism shortcuts are judged by verdict "
              "only (no tiny-world model of them). Jacobian-tagged operands in the PROJC build are excluded from g1/g2_is_valid (misuse).",
         technique="TLC trace validation of recorded pc calls against definitional validity and exponentiation + TLC model checking of the membership equation in tiny pairing-friendly worlds"),
+    "C10": dict(
+        text="lib/Tower (generic quotient-ring arithmetic over a described tower, explicit tuples) is the definition. Design models: "
+             "MCTowerFrb (p = 7, 11; 13 in thorough: balanced exponentiation = TExp and the semilinear Frobenius = p-th power on all of "
+             "F_p2, F_p3 and lattices of F_p4..F_p18) and TowerAlg (the formula programs AS CODED - Karatsuba / complex squaring / "
+             "mul_nor on all pairs of F_p2, fp6 Karatsuba, Chung-Hasan squaring, sparse and lazy-reduced products with accumulator "
+             "range invariants, fp12 forms incl. both sparse patterns, Granger-Scott and Karabina squarings and decompression on ALL "
+             "elements of the cyclotomic subgroup of F_7^12 (2353) resp. F_11^12 (14521) - for p = 7, 13, 19 covering the three residue "
+             "classes mod 8) are checked exhaustively by TLC. Conformance: drv_fpx executes every exported fp2..fp54 operation "
+             "(add, sub, neg, dbl, mul and sqr in every variant incl. lazy/unreduced and sparse forms, inv, inv_sim, frb for every power "
+             "0..degree, exp, exp_dig, exp_cyc, exp_cyc_sim, exp_cyc_sps, conv/test/back/sqr_cyc and compressed forms, srt, is_sqr, "
+             "field constants) on the BN_P256 and SM9_P256 towers and on every other selectable 256-bit prime whose residue classes "
+             "admit a tower (thorough: BLS12-381, degrees 48 and 54), and in an 8-bit world for p = 7, 13, 19 (degree 2 exhaustively, "
+             "cyclotomic subgroup densely); operands: zero, one, zero coefficients in every position, base-field / subfield elements, "
+             "cyclotomic and order-r elements, exponents 0, negative, sparse, long. TLC validates every event through the refinement "
+             "mapping raw Montgomery coefficients -> tower element against lib/Tower with the tower description (non-residues) revealed "
+             "by the library and checked for irreducibility.",
+        ref="§4 C10",
+        note=_NOTE + " Known findings: fp54_frb on the 256-bit pairing primes and the Frobenius constants for p = 2 (mod 3) (keyed).",
+        technique="TLC model checking of transcribed tower formula programs against generic quotient-ring arithmetic + TLC trace validation of recorded fpN calls"),
+    "C16": dict(
+        text="lib/GF2m (polynomials over GF(2) modulo f, Bitwise-based with a model-checked Java accelerator) and lib/BinCurve (affine "
+             "group law of y^2 + xy = x^3 + ax^2 + b) are the definitions: MCGF2m checks the field axioms, Frobenius, trace, half-trace and "
+             "square-root identities for every irreducible f up to m = 9 (pure definitions up to m = 7), MCBinCurve the group law incl. the "
+             "point of order two, halving = inverse of doubling on the odd-order subgroup and the Frobenius endomorphism on every curve "
+             "over GF(2^m), m <= 5 (all a, b), FbLow the comb multiplication, table squaring, trinomial/pentanomial fast reduction, "
+             "square-root and iterated-squaring table programs as coded at 8-bit digits. Conformance: drv_fb executes every fb_*, fb2_* "
+             "and eb_* routine (all multiplication / squaring / reduction / inversion / solve / exponentiation variants; add, dbl, hlv, "
+             "frb, neg, norm, cmp in affine and Lopez-Dahab projective forms; eb_mul basic, lodah, halve, lwnaf, rwnaf (tau-NAF on the "
+             "Koblitz curve), fixed-base and simultaneous forms) at m = 283 on NIST-B283 and NIST-K283 and in an 8-bit world over eight "
+             "tiny fields with installed random and Koblitz curves (every element for 13 routines, every scalar in [-n-40, 2^17) for "
+             "lwnaf in thorough); TLC validates each event against GF2m / BinCurve (value, reduced form, normalised outputs, inputs unchanged).",
+        ref="§4 C16",
+        note=_NOTE + " GF2m.java accelerator is model-checked against the pure definitions (MCGF2m) and cross-checked at 283 bits in every run. "
+             "Known findings (keyed): affine doubling of the order-two point, scalars longer than the order, projective operands of "
+             "lodah/rwnaf/halve, fb_exp_slide exponent capacity.",
+        technique="TLC model checking of GF(2^m) arithmetic, the binary-curve law and the low-level table programs + TLC trace validation of recorded fb/eb calls"),
 }
